@@ -315,11 +315,14 @@ class TraitSet(set):
             The other iterables.
         """
 
-        old_set = self.copy()
-        super().difference_update(*args)
-        removed = old_set.difference(self)
+        # Work out which members are to go before touching the set: an
+        # argument that is not an iterable of hashable items raises TypeError
+        # as for the built-in set, but nothing has been removed by then.
+        others = set().union(*args)
+        removed = set(item for item in self if item in others)
 
         if len(removed) > 0:
+            super().difference_update(removed)
             self.notify(removed, set())
 
     def intersection_update(self, *args):
